@@ -248,9 +248,125 @@ def gen_guard(rng, tier):
     return {"kind": "guard", "ops": ops, "forms": guard_forms(rng, ops)}
 
 
+# ----------------------------------------------------------------- boundary stream
+# Boundaries of every dimension of QUANTIFIED OVER, hit DELIBERATELY in every run (name -> what).
+BOUNDARIES = [
+    ("rows_0, rows_1, rows_2", "frames with 0 / 1 / 2 rows, all three blocks present"),
+    ("one_column_each", "exactly one categorical, one numerical, one embedding column of dimension 1"),
+    ("equal_widths", "categorical, numerical and embedding blocks of the SAME width (offsets coincide)"),
+    ("emb_dims_equal, emb_dims_differ", "embedding columns of equal / pairwise different dimensions"),
+    ("cat_all_missing, cat_missing_first_cell, cat_missing_last_cell", "-1 everywhere / only in the first / last cell"),
+    ("cat_minus2_and_zero", "category codes -2 and 0 next to -1 (only -1 is missing)"),
+    ("num_minus1, num_nan_first_cell, num_nan_last_cell, num_all_nan", "a numerical -1; NaN first / last / everywhere"),
+    ("y_all_equal", "a constant target"),
+    ("only_ignored", "a frame with ignored stypes only (rejected)"),
+    ("hist_same_frame_twice", "one adapter object converts the SAME frame object twice"),
+    ("hist_equal_layout_other_values", "two frames of equal layout and different values through one object"),
+    ("hist_rejected_then_valid", "an earlier rejected (empty) frame, then a valid one, through one object"),
+    ("hist_valid_then_rejected", "a valid frame, then a rejected one, through one object"),
+    ("hist_cat_then_nocat, hist_nocat_then_cat", "categorical columns disappear / appear between two calls"),
+    ("metric_n1, metric_n2", "vectors of length 1 and 2, every metric"),
+    ("metric_perfect, metric_all_wrong", "prediction equal to the target / wrong everywhere"),
+    ("metric_symmetric_errors", "errors +d and -d (mean error 0, RMSE and MAE = d)"),
+    ("acc_all_half, acc_half_plus_ulp, acc_half_minus_ulp", "binary scores exactly 0.5 / one float32 ulp above / below"),
+    ("guard_*", "all operation sequences up to length 3 (exhaustive): first call, same call twice, failed tune then "
+     "predict/save, load only"),
+    ("pair_*", "all (task, metric | None) pairs (exhaustive)"),
+]
+
+
+def _bframe(n, wc, wn, dims, rng, y="float", ignored=(), derive=None):
+    ids = itertools.count(1)
+    f = {"kind": "adapter", "n": n,
+         "cat": {"names": ["c%d" % j for j in range(wc)], "rows": [[next(ids) for _ in range(wc)] for _ in range(n)]} if wc else None,
+         "num": {"names": ["n%d" % j for j in range(wn)],
+                 "rows": [[[2 * next(ids) + 1, 2] for _ in range(wn)] for _ in range(n)]} if wn else None,
+         "emb": {"names": ["e%d" % j for j in range(len(dims))], "dims": list(dims),
+                 "rows": [[[[4 * next(ids) + 1, 4] for _ in range(d)] for d in dims] for _ in range(n)]} if dims else None,
+         "ignored": list(ignored)}
+    order = [k for k, v in (("categorical", wc), ("numerical", wn), ("embedding", dims)) if v] + list(ignored)
+    rng.shuffle(order)
+    f["order"] = order
+    f["y"] = None if y is None else ({"dtype": "float", "v": [[2 * next(ids) + 1, 2] for _ in range(n)]}
+                                     if y == "float" else {"dtype": "long", "v": [[1, 1]] * n})
+    f["form"] = {"derive": derive, "pad": [1, 1], "num_dtype": "float32", "y_float": "float32",
+                 "emb_form": "list", "call": "pos"}
+    return f
+
+
+def gen_boundary_cases(rng):
+    out = []
+
+    def A(name, f):
+        f["boundary"] = name
+        out.append(f)
+        return f
+    for n in (0, 1, 2):
+        A(f"rows_{n}", _bframe(n, 2, 1, [2, 1], rng))
+        A(f"rows_{n}", _bframe(n, 1, 2, [1], rng, derive="slice"))
+    A("one_column_each", _bframe(3, 1, 1, [1], rng))
+    A("equal_widths", _bframe(3, 2, 2, [1, 1], rng))
+    A("equal_widths", _bframe(2, 3, 3, [3], rng, y=None))
+    A("emb_dims_equal", _bframe(2, 1, 1, [2, 2, 2], rng))
+    A("emb_dims_differ", _bframe(2, 1, 1, [3, 1, 2], rng))
+    f = A("cat_all_missing", _bframe(3, 2, 1, [1], rng)); f["cat"]["rows"] = [[-1, -1]] * 3
+    f = A("cat_missing_first_cell", _bframe(3, 2, 1, [1], rng)); f["cat"]["rows"][0][0] = -1
+    f = A("cat_missing_last_cell", _bframe(3, 2, 1, [1], rng)); f["cat"]["rows"][-1][-1] = -1
+    f = A("cat_minus2_and_zero", _bframe(3, 1, 1, [], rng)); f["cat"]["rows"] = [[-2], [0], [-1]]
+    f = A("num_minus1", _bframe(2, 1, 2, [], rng)); f["num"]["rows"][0][0] = [-1, 1]
+    f = A("num_nan_first_cell", _bframe(2, 1, 2, [1], rng)); f["num"]["rows"][0][0] = None
+    f = A("num_nan_last_cell", _bframe(2, 1, 2, [1], rng)); f["num"]["rows"][-1][-1] = None
+    f = A("num_all_nan", _bframe(2, 0, 2, [], rng)); f["num"]["rows"] = [[None, None]] * 2
+    A("y_all_equal", _bframe(3, 1, 1, [1], rng, y="long"))
+    A("only_ignored", _bframe(2, 0, 0, [], rng, y=None, ignored=["timestamp", "multicategorical"]))
+
+    def H(name, frames, steps):
+        out.append({"kind": "history", "frames": frames, "steps": steps, "boundary": name})
+    for lib in LIBS:
+        sh = lambda i: {"frame": i, "lib": lib, "obj": "shared"}
+        a, b = _bframe(2, 2, 1, [2], rng), _bframe(2, 2, 1, [2], rng)
+        for r in b["cat"]["rows"]:
+            r[0] += 500
+        nocat = _bframe(2, 0, 2, [1], rng)
+        empty = _bframe(2, 0, 0, [], rng, y=None, ignored=["timestamp"])
+        H("hist_same_frame_twice", [a], [sh(0), sh(0)])
+        H("hist_equal_layout_other_values", [a, b], [sh(0), sh(1), sh(0)])
+        H("hist_rejected_then_valid", [empty, a], [sh(0), sh(1)])
+        H("hist_valid_then_rejected", [a, empty], [sh(0), sh(1), sh(0)])
+        H("hist_cat_then_nocat", [a, nocat], [sh(0), sh(1)])
+        H("hist_nocat_then_cat", [nocat, a], [sh(0), sh(1)])
+
+    def Mx(name, metric, target, pred, td=None, pd_=None):
+        dflt = {"rmse": ("float32", "float32"), "mae": ("float32", "float32"), "acc_bin": ("long", "float32"),
+                "acc_multi": ("long", "long")}[metric]
+        out.append({"kind": "metric", "metric": metric, "target": target, "pred": pred, "boundary": name,
+                    "form": {"call": "pos", "target_dtype": td or dflt[0], "pred_dtype": pd_ or dflt[1]}})
+    q = lambda k: [k, 8]
+    for m in ("rmse", "mae"):
+        Mx("metric_n1", m, [q(5)], [q(-3)])
+        Mx("metric_n2", m, [q(5), q(8)], [q(6), q(8)])
+        Mx("metric_perfect", m, [q(5), q(-8), q(0)], [q(5), q(-8), q(0)])
+        Mx("metric_all_wrong", m, [q(5), q(-8), q(0)], [q(6), q(-7), q(40)])
+        Mx("metric_symmetric_errors", m, [q(0), q(0), q(16), q(16)], [q(12), q(-12), q(28), q(4)])
+    half, up, down = [1, 2], [2 ** 23 + 1, 2 ** 24], [2 ** 24 - 1, 2 ** 25]
+    Mx("metric_n1", "acc_bin", [1], [half]); Mx("metric_n1", "acc_multi", [2], [2])
+    Mx("metric_n2", "acc_bin", [1, 0], [[3, 4], half]); Mx("metric_n2", "acc_multi", [2, 0], [2, 1])
+    Mx("metric_perfect", "acc_bin", [1, 0, 1], [[3, 4], [1, 4], up]); Mx("metric_perfect", "acc_multi", [0, 1, 2], [0, 1, 2])
+    Mx("metric_all_wrong", "acc_bin", [0, 1, 1], [[3, 4], [1, 4], half]); Mx("metric_all_wrong", "acc_multi", [0, 1, 2], [1, 2, 0])
+    for td in ("long", "float32", "bool"):
+        Mx("acc_all_half", "acc_bin", [1, 0, 1, 0], [half] * 4, td=td)
+    for pd_ in ("float32", "float64"):
+        Mx("acc_half_plus_ulp", "acc_bin", [1, 0, 1], [up, up, half], pd_=pd_)
+        Mx("acc_half_minus_ulp", "acc_bin", [1, 0, 0], [down, down, half], pd_=pd_)
+    return out
+
+
+BOUNDARY_NAMES = sorted({c["boundary"] for c in gen_boundary_cases(C.Rng(0))})
+
+
 def generate(rng, tier):
     na, nm, ng = (600, 400, 60) if tier == "quick" else (8000, 6000, 1500)
-    cases = []
+    cases = gen_boundary_cases(rng)
     # every subset of the three stypes, incl. the empty one, is always present
     for k in range(4):
         for sub in itertools.combinations(("categorical", "numerical", "embedding"), k):
@@ -896,6 +1012,9 @@ def stats(cases, obss):
         if c is None or o is None or "harness_exc" in o:
             continue
         d["total"] += 1
+        if c.get("boundary"):
+            d.setdefault("boundaries", {})
+            d["boundaries"][c["boundary"]] = d["boundaries"].get(c["boundary"], 0) + 1
         k = c["kind"]
         d["kinds"][k] = d["kinds"].get(k, 0) + 1
         fr = d.setdefault("forms", {})
@@ -965,6 +1084,9 @@ def sanity(cases, obss):
     """Fail-closed distribution check."""
     d = stats(cases, obss)
     probs = []
+    for b in BOUNDARY_NAMES:
+        if d.get("boundaries", {}).get(b, 0) == 0:
+            probs.append(f"boundary {b} not hit")
     for sub in ("none", "cat", "num", "emb", "cat+num", "cat+emb", "num+emb", "cat+num+emb"):
         if d["adapter_subsets"].get(sub, 0) == 0:
             probs.append(f"stype subset {sub} never drawn")
